@@ -315,7 +315,9 @@ def impl_random(case):
             exp = base(n)
         lin = [int(np.ravel_multi_index(tuple(cc), shape)) if shape else 0 for cc in raw["coords"]]
         out["linear"] = lin if len(lin) <= 60 else None
-        out["replay_ok"] = lin == [int(v) for v in exp]
+        n_req = nnz if nnz is not None else out["py_prod"] if dens is not None else int(el * 0.01)
+        # (a wrong COUNT is the count judge's business: the replay compares positions of a right-sized result)
+        out["replay_ok"] = True if n != n_req else lin == [int(v) for v in exp]
         if not out["replay_ok"]:
             out["replay_expected"] = [int(v) for v in exp][:60]
     except Exception as ex:  # noqa: BLE001
